@@ -49,7 +49,7 @@ func init() {
 	hx.Register(&hx.Prop{
 		ID: "C15",
 		Rule: "corpus (inputs of the repaired findings F-C15-1 and F-C15-2, shapes of past seeded defects); exhaustive: all 28 unordered pairs of the 7 operation kinds " +
-			"(gorillamux FindRoute, legacy FindRoute, ValidateRequest, ValidateResponse, VisitJSON, NewSchemaRefForValue, the handler of Validator.Middleware on one shared Validator) × {fresh process (first use raced), warm process} " +
+			"(gorillamux FindRoute, legacy FindRoute, ValidateRequest, ValidateResponse, VisitJSON, NewSchemaRefForValue, the handler of Validator.Middleware on one shared Validator); re-validation of the shared document ((*T).Validate) next to each kind × {fresh process (first use raced), warm process} " +
 			"on a document with patterns, uniqueItems arrays, scalar defaults, allOf/oneOf, multipart and urlencoded bodies with additionalProperties schemas; " +
 			"the same pattern text reached with two regex compilers (per-call option) × document validated with the default / the second compiler / pattern validation off × {fresh, warm}; " +
 			"fresh-process first use of eight self-referential Go types; " +
@@ -597,6 +597,16 @@ func c15Exec(w *c15World, docSpec, call map[string]any) (res string) {
 			server = route.Server.URL // both routers name the server the request was matched through
 		}
 		return fmt.Sprintf("route %s %s %v server=%s", route.Method, route.Path, keys, server)
+	case "dval":
+		// re-validation of the shared, already validated document (what legacy.NewRouter does for a second router)
+		var vopts []openapi3.ValidationOption
+		switch c15DocRx {
+		case "ci":
+			vopts = append(vopts, openapi3.SetRegexCompiler(c15CI))
+		case "off":
+			vopts = append(vopts, openapi3.DisableSchemaPatternValidation())
+		}
+		return "dval " + errText(w.doc.Validate(ctx, vopts...))
 	case "mw":
 		// the middleware: FindRoute + ValidateRequest + handler + ValidateResponse on the shared Validator
 		req := c15Request(w, docSpec, call)
@@ -971,7 +981,7 @@ func runC15Child(c hx.Case) any {
 	vk := map[string]int{} // how the calls of this case end when run alone (accepted / rejected / not routed …)
 	for _, v := range ref {
 		switch {
-		case strings.HasPrefix(v, "ok"), strings.HasPrefix(v, "route "), strings.HasPrefix(v, "{"), strings.HasPrefix(v, "mw 2"):
+		case strings.HasPrefix(v, "ok"), strings.HasPrefix(v, "route "), strings.HasPrefix(v, "{"), strings.HasPrefix(v, "mw 2"), v == "dval ok":
 			vk["accepted"]++
 		case strings.HasPrefix(v, "route-error"):
 			vk["notRouted"]++
@@ -1618,6 +1628,7 @@ func (g *c15Gen) call(kind string, doc map[string]any) map[string]any {
 			opts = append(opts, "failfast")
 		}
 		c["opts"] = opts
+	case "dval":
 	case "gen":
 		t := g.r.Intn(len(c15GenValues))
 		c["type"] = t
@@ -1883,6 +1894,13 @@ func genC15(ctx *hx.Ctx, emit func(hx.Case)) {
 			emit(c15SchemaListCase(v, cold, n))
 		}
 	}
+	// re-validation of the shared document next to each kind of concurrent call (out of the property's list of calls, but
+	// table ConstructionWrites says it only reads a validated document: checked here under -race)
+	for i, k := range c15Kinds {
+		n++
+		tag := fmt.Sprintf("dv%d", n)
+		emit(hx.Case{"doc": c15SinkDoc(tag), "calls": []any{map[string]any{"k": "dval"}, c15SinkCall(k, i), c15SinkCall(k, i+1)}, "g": 8, "per": 2, "rounds": 1, "cold": i == 2, "sched": 900 + n})
+	}
 	// single goroutine: the sequential behaviour of the same machinery (trivial cases)
 	emit(hx.Case{"doc": c15SinkDoc("one"), "calls": []any{c15SinkCall("vreq", 0), c15SinkCall("visit", 1)}, "g": 1, "per": 2, "rounds": 1, "cold": false, "sched": 1})
 
@@ -1897,7 +1915,11 @@ func genC15(ctx *hx.Ctx, emit func(hx.Case)) {
 		nc := 2 + r.Intn(5)
 		var calls []any
 		for j := 0; j < nc; j++ {
-			calls = append(calls, g.call(hx.Pick(r, c15Kinds), doc))
+			kind := hx.Pick(r, c15Kinds)
+			if r.Chance(6) {
+				kind = "dval"
+			}
+			calls = append(calls, g.call(kind, doc))
 		}
 		emit(hx.Case{"doc": doc, "calls": calls, "g": 2 + r.Intn(11), "per": 1 + r.Intn(3), "rounds": 1 + r.Intn(2), "cold": cold, "sched": int(r.U64() % 100000)})
 	}
